@@ -5,7 +5,7 @@ use nom::{
         alpha1, alphanumeric1, char, digit1, hex_digit1, multispace1, oct_digit1,
         one_of,
     },
-    combinator::{all_consuming, cut, map, map_opt, map_res, opt, recognize},
+    combinator::{all_consuming, cut, map, map_opt, map_res, not, opt, recognize},
     error::{context, convert_error, ContextError, FromExternalError, ParseError, VerboseError},
     multi::{many0, many1, separated_list0},
     sequence::{delimited, pair, preceded, separated_pair, terminated, tuple as nom_tuple},
@@ -191,6 +191,15 @@ rule!(blank(i), no_ctx, {
     recognize(many0(alt((multispace1, eol_comment, inline_comment))))(i)
 });
 
+// a keyword that starts an expression (`if`, `let`): it must not be the beginning of a longer identifier,
+// otherwise `iffy(x)` is first parsed as `if fy(x) ...` and, failing that, parsed again as a call
+fn keyword<'a, E>(kw: &'static str) -> impl FnMut(Span<'a>) -> IResult<Span<'a>, Span<'a>, E>
+where
+    E: ParseError<Span<'a>>,
+{
+    terminated(tag(kw), not(alt((alphanumeric1, tag("_")))))
+}
+
 // ignore leading whitespaces
 fn ws<'a, O, E, F>(f: F) -> impl FnMut(Span<'a>) -> IResult<Span<'a>, O, E>
 where
@@ -276,23 +285,22 @@ rule!(array -> Value, {
     map(delimited(char('['), cut(body),ws(char(']'))), Into::into)
 });
 
+// `( e )` is a grouping, `()`, `( e, )` and `( e1, e2 .. )` are tuples; parsed by one rule so that the
+// shared prefix `( e` is parsed once and not once per alternative
 rule!(tuple -> Value, {
-    let body = map_opt(
-        pair(many0(terminated(
-            op_0,
-            ws(char(','))
-        )),opt(op_0)),
-        |(mut ary,last)|{
-            if ary.is_empty() && last.is_some() {
-                return None
-            }
-            if let Some(v) = last {
-                ary.push(v);
-            }
-            Some(ary)
-        }
+    let body = pair(
+        separated_list0(ws(char(',')), op_0),
+        opt(ws(char(',')))
     );
-    map(map(delimited(char('('), body,ws(char(')'))), Arc::new), Value::Tuple)
+    map_opt(delimited(char('('), body, ws(char(')'))), |(mut ary, trailing)| {
+        if ary.is_empty() && trailing.is_some() {
+            None
+        } else if ary.len() == 1 && trailing.is_none() {
+            Some(ary.remove(0))
+        } else {
+            Some(Value::Tuple(Arc::new(ary)))
+        }
+    })
 });
 
 rule!(value -> Value, {
@@ -309,11 +317,7 @@ rule!(value -> Value, {
 });
 
 rule!(op_value -> Value, {
-    alt((
-        delimited(char('('), ws(op_0), ws(char(')'))),
-        delimited(char('('), ws(value), ws(char(')'))),
-        value,
-    ))
+    value
 });
 
 rule!(op_index -> (Span<'a>,Vec<Value>), {
@@ -414,20 +418,30 @@ op_rule!(op_1, op_1_5, alt((tag("||"), tag_no_case("or"))));
 
 rule!(op_if(i) -> Value, {
     map(
-        alt((
-            nom_tuple((
-                preceded(tag("if"),op_0),
-                preceded(ws(tag("then")),op_0),
-                preceded(ws(tag("else")),op_0),
-            )) ,
-            nom_tuple((
-                terminated(op_1,ws(tag("?"))),
-                terminated(op_0,ws(tag(":"))),
-                op_0
-            )) ,
-        )),
+        nom_tuple((
+            preceded(keyword("if"),op_0),
+            preceded(ws(tag("then")),op_0),
+            preceded(ws(tag("else")),op_0),
+        )) ,
         |(cond, yes, no)| {
             If::make_call(cond, yes, no).into()
+        }
+    )
+});
+
+// `c ? a : b`, or just `c`: the condition is parsed once and the `? :` tail is optional
+rule!(op_cond(i) -> Value, {
+    map(
+        pair(
+            op_1,
+            opt(pair(
+                preceded(ws(tag("?")),op_0),
+                preceded(ws(tag(":")),op_0),
+            ))
+        ),
+        |(cond, tail)| match tail {
+            Some((yes, no)) => If::make_call(cond, yes, no).into(),
+            None => cond,
         }
     )
 });
@@ -442,7 +456,7 @@ rule!(op_assign -> Value, {
 rule!(op_let -> Value, {
     map(
         nom_tuple((
-            preceded(tag("let"),
+            preceded(keyword("let"),
                 terminated(
                     separated_list0(ws(char(';')), op_assign),
                     opt(ws(char(';')))
@@ -458,7 +472,7 @@ rule!(op_0 -> Value, {
     alt((
         op_if,
         op_let,
-        op_1
+        op_cond
     ))
 });
 
